@@ -134,6 +134,12 @@ def declguard_rule(repo, res, modules=("bash",), rule="DECLGUARD", advisory_modu
                         bad.append("if " + " ".join(repo.text(fn.file, c).split())[:70])
                     elif g["k"] == "Arm":
                         continue
+                    elif g["k"] == "ForLoop":
+                        # the same test written as an adaptor on what the loop runs over; and a position counted AFTER the dropping
+                        # adaptor (`.filter(..).enumerate()`) also renumbers the tables that are left
+                        drops = [m["method"] for m in A.walk(g["iter"]) if m["k"] == "MethodCall" and m["method"] in ("filter", "filter_map", "skip_while", "take_while", "skip", "take", "step_by", "flat_map", "flatten")]
+                        if drops:
+                            bad.append("for the elements that pass `." + "/.".join(drops) + "(..)` of the loop it stands in")
                 for kind, c, st in A.preceding_guards(s.node, pm):
                     # only guards inside the same loop body matter (a `continue` skips this declaration for one element)
                     if kind == "if" and any(x["k"] == "Continue" for x in A.walk(st)):
